@@ -200,27 +200,77 @@ def r5_epoch_filters(ctx):
         "total_votes": (["Le($2.e_start, ^epoch)", "Lt(^epoch, $2.e_post_end)"], None, "$2.syms_staked.0"),
         "votes": (["Le($2.e_start, ^epoch)", "Lt(^epoch, $2.e_post_end)", "Eq($2.pubkey, ^key)"], None, "$2.syms_staked.0"),
     }
+    import re as _re
+
+    def generic(c):
+        """atom with the stake document / epoch / key named by role rather than by position: `$2.e_start`, `elem(values(..)).e_start` → @.e_start"""
+        c = _re.sub(r"(\$\d|elem\([^()]*(\([^()]*\))*[^()]*\)(\.1)?)\.(e_start|e_post_end|pubkey|syms_staked)", r"@.\4", c)
+        c = _re.sub(r"\^epoch|\^key", lambda m: m.group(0)[1:].upper(), c)
+        return c
+
+    def eqsort(c):
+        m = _re.match(r"(Eq|Ne)\((.*), (.*)\)$", c)
+        if m and m.group(3) < m.group(2):
+            return "%s(%s, %s)" % (m.group(1), m.group(3), m.group(2))
+        return c
     for fn, (atoms, whole, term) in spec.items():
         b = ctx.body("tip911_stakeset::StakeSet::" + fn, r)
         cl = prog.closures_of(b)
-        r.check(len(cl) >= 1, fn + "/closure", "filter closure present", "no filter closure in %s" % fn)
-        if not cl:
+        nested = prog.all_nested(b)
+        # role names of the parameters in the function itself ($2 = epoch, $3 = key) for the loop spelling
+        def roles(c, body):
+            c = generic(c)
+            if body is b:
+                c = c.replace("$2", "EPOCH").replace("$3", "KEY")
+            return eqsort(c)
+        want = [eqsort(generic(x)) for x in atoms]
+        found = {}          # generic expected atom -> (body, expr)
+        seen_pairs = {}     # frozenset of operands -> [generic canon as spelled]
+        for body in nested:
+            for e, c, bi in q.pick_atoms(body, lambda c, body=body: roles(c, body) in want):
+                g = roles(c, body)
+                if g in want:
+                    found.setdefault(g, (body, e))
+                m = _re.match(r"(\w+)\((.*), (.*)\)$", g)
+                if m:
+                    seen_pairs.setdefault(frozenset((m.group(2), m.group(3))), []).append(g)
+        missing = [w for w in want if w not in found]
+        for w in missing:
+            m = _re.match(r"(\w+)\((.*), (.*)\)$", w)
+            other = seen_pairs.get(frozenset((m.group(2), m.group(3))), []) if m else []
+            orig = atoms[want.index(w)]
+            if other:
+                r.violation(fn + "/filter/missing:" + orig, "%s compares these operands as %s where the rule is %s: the boundary epoch is treated differently" % (fn, sorted(set(other)), w))
+                r.violation(fn + "/filter/extra:" + sorted(set(other))[0].replace("@", "$2" if fn != "unlock_old" else "$3").replace("EPOCH", "^epoch").replace("KEY", "^key"),
+                            "an additional / different condition %s is applied (expected exactly %s)" % (sorted(set(other)), atoms))
+            else:
+                r.violation(fn + "/filter/missing:" + orig, "the condition %s is not evaluated anywhere in %s" % (orig, fn))
+        if missing:
             continue
-        q.check_conjunction(r, fn + "/filter", cl[0], atoms)
+        bool_cl = [c for c in cl if c.locals[0]["ty"] == "bool" and all(any(roles(cc, c) == w for e_, cc, b_ in q.pick_atoms(c, lambda c_, c=c: roles(c_, c) in want)) for w in want)]
+        if not bool_cl:
+            r.undecided(fn + "/filter/shape", "the atoms %s are all evaluated in %s, but not as one bool-returning filter closure (loop / filter_map spelling): exact conjunction not decided" % (atoms, fn),
+                        "%s:%s" % (b.file, b.line))
+            continue
+        r.ok(fn + "/closure", "filter closure present")
+        q.check_conjunction(r, fn + "/filter", bool_cl[0], atoms)
         rr = q.ret_assignments(b)
-        top = None
         if fn == "unlock_old":
             calls = q.call_exprs(b, "retain")
             r.check(len(calls) == 1 and sig(calls[0][1]) == whole, fn + "/retain", "stakes.retain(filter)", "unlock_old does %s" % [sig(c[1]) for c in calls])
         else:
-            s = sig(rr[0][2]) if rr else "?"
+            s_ = sig(rr[0][2]) if rr else "?"
             caps = "epoch=$2" if fn == "total_votes" else "epoch=$2, key=$3"
-            want = "Iterator::sum(Iterator::map(Iterator::filter(HashMap::values($1.stakes), closure[%s]), closure[]))" % caps
-            r.check(s == want, fn + "/shape", "sum(map(filter(all stakes)))", "%s returns %s" % (fn, s))
-            if len(cl) > 1:
-                r2 = q.ret_assignments(cl[1])
-                s2 = sig(r2[0][2]) if r2 else "?"
-                r.check(s2 == term, fn + "/term", "each term = syms_staked", "each term = %s" % s2)
+            want_s = "Iterator::sum(Iterator::map(Iterator::filter(HashMap::values($1.stakes), closure[%s]), closure[]))" % caps
+            if s_ == want_s:
+                r.ok(fn + "/shape", "sum(map(filter(all stakes)))")
+                others = [c for c in cl if c is not bool_cl[0]]
+                if others:
+                    r2 = q.ret_assignments(others[0])
+                    s2 = sig(r2[0][2]) if r2 else "?"
+                    r.check(s2 in (term, term[:-2]), fn + "/term", "each term = syms_staked", "each term = %s" % s2)
+            else:
+                r.undecided(fn + "/shape", "%s returns %s: not the sum(map(filter(..))) spelling, summation not decided" % (fn, s_[:160]))
 
 
 def r6_stakes_after_success(ctx):
